@@ -55,21 +55,21 @@ type monitor struct {
 	trace []string
 
 	// effects
-	roundChanges  int
-	maxRound      int64
-	decidedRounds map[core.Duty]map[int]int64
-	rejected      map[string]int // verifier rejections by error class
-	rejectedByz   int
-	acceptedByz   int
-	equivocations int
-	candidates    map[core.Duty]map[string]bool
-	decidedHash   map[core.Duty]map[int]string
-	precursors    map[string]int
-	aggCalls      map[string]int
-	templateOdd   int
-	vapiErrors    map[string]int
-	vcSubmitted   int
-	dutyStoreErrs int
+	roundChanges                               int
+	maxRound                                   int64
+	decidedRounds                              map[core.Duty]map[int]int64
+	rejected                                   map[string]int // verifier rejections by error class
+	rejectedByz                                int
+	acceptedByz                                int
+	equivocations                              int
+	candidates                                 map[core.Duty]map[string]bool
+	decidedHash                                map[core.Duty]map[int]string
+	precursors                                 map[string]int
+	aggCalls                                   map[string]int
+	templateOdd                                int
+	vapiErrors                                 map[string]int
+	vcSubmitted                                int
+	dutyStoreErrs                              int
 	resignRefused, resignAccepted, resignOther int
 }
 
